@@ -8,7 +8,7 @@ from facts import Unusable
 TRANSPARENT_SUFFIX = (
     "::deref", "::deref_mut", "::as_ref", "::as_mut", "::borrow", "::borrow_mut", "::clone",
     "::to_owned", "::into", "::from", "::as_str", "::as_bytes", "::as_slice", "::as_mut_slice",
-    "::to_string", "::as_deref", "::into_iter", "::iter", "::iter_mut", "::to_vec", "::unsize",
+    "::to_string", "::as_deref", "::into_iter", "::iter", "::iter_mut", "::to_vec", "::unsize", "::try_into", "::try_from",
 )
 CONVERTERS = ("read_err", "write_err", "invalid_err", "internal_err")
 
